@@ -390,7 +390,10 @@ def configs(tier):
                      bounds='prior task absent or present with status/end/start/tag each optional; 2 mutator calls out of 7 status/time/value mutators; symbolic non-decreasing clock and arguments'),
                 dict(name='tags-udas-deps-2', factory=lambda: Harness(2, extra, 'e2'),
                      bounds='2 mutator calls out of 14 tag/annotation/UDA/dependency/text mutators')]
-    return [dict(name='all-3', factory=lambda: Harness(3, core + extra, 'a3'), bounds='3 calls out of all 21 mutators', time_limit_s=3300)]
+    return [dict(name='status-time-3', factory=lambda: Harness(3, core, 'c3'), bounds='3 mutator calls out of the 7 status/time/value mutators', time_limit_s=3300),
+            dict(name='tags-deps-3', factory=lambda: Harness(3, ['add_tag', 'remove_tag', 'add_annotation', 'remove_annotation', 'add_dependency', 'remove_dependency', 'set_status'], 'e3'),
+                 bounds='3 calls out of 7 tag/annotation/dependency mutators and set_status', time_limit_s=3300),
+            dict(name='mixed-2', factory=lambda: Harness(2, core + extra, 'a2'), bounds='2 calls out of all 21 mutators', time_limit_s=3300)]
 
 
 ASSUMPTIONS = [
